@@ -8,17 +8,20 @@ ASSUME = ['clang-14 -O1 lowering preserves semantics; llsym implements the IR se
 
 def jobs(tier):
     q = tier == 'quick'; J = []
-    top = 100 if q else 160
-    step = 8 if q else 4
+    DS = {0: '{0,1,2,15,16,17,31,32,33,far}', 1: '0..34 and far', 2: '{0,1,16,31,32,far}', 3: 'far only (placement is irrelevant when nothing beyond the operands is read)'}
     for cfg, defs, noslack, tag in (('haswell', (), 0, 'prod'), ('haswell', ('__SANITIZE_ADDRESS__',), 1, 'san'), ('westmere', (), 1, 'sse')):
+        if q:
+            chunks = [(0, 7), (8, 15), (16, 23), (24, 31), (32, 35), (36, 40), (63, 66), (95, 100)] if tag == 'prod' else [(0, 33), (63, 66), (95, 100)]
+            alld = 2 if tag == 'prod' else 3
+        else:
+            chunks = [(lo, min(160, lo + 3)) for lo in range(0, 161, 4)]
+            alld = 1 if tag == 'prod' else 0
         for mode in (0, 1):
-            for lo in range(0, top + 1, step):
-                hi = min(top, lo + step - 1)
-                alld = 0 if q else (1 if tag == 'prod' else 0)
+            for lo, hi in chunks:
                 J.append(Job('C14.%s.%s.len%d-%d' % (tag, 'cmp' if mode else 'eq', lo, hi), 'harness/c_memcmp.cpp', '@h_memcmp', [lo, hi, alld, mode, noslack],
-                             config=cfg, defines=defs, nproc=1, timeout=3000, max_paths=2000000,
+                             config=cfg, defines=defs, nproc=2 if q else 1, timeout=3000, max_paths=2000000,
                              bound='%s, every length %d..%d, all contents of both operands, page-end distances %s for each operand' % (
-                                 'InlinedMemcmp' if mode else 'InlinedMemcmpEq', lo, hi, '0..34 and far' if alld else '{0,1,2,15,16,17,31,32,33,far}')))
+                                 'InlinedMemcmp' if mode else 'InlinedMemcmpEq', lo, hi, DS[alld])))
     return J
 
 
